@@ -127,9 +127,10 @@ class Unit:
         self.ctext = '#include "iora_base.h"\n' + ''.join(f'#include "{h}"\n' for h in self.spec.get('shim_headers', [])) + ctext
         if isinstance(rep, dict):
             from . import ppcond
+            used = {x.get('file') for x in rep.get('sources', [])} | {self.spec.get('file')}
             rep['conditional_compilation'] = {"evaluated_by": "g++ -std=c++17 -E on a marked copy (vt/ppcond.py)",
-                                              "arms_total_dropped": {k: list(v) for k, v in ppcond.evaluated.items()},
-                                              "not_evaluated": dict(ppcond.unevaluated)}
+                                              "arms_total_dropped": {k: list(v) for k, v in ppcond.evaluated.items() if k in used},
+                                              "not_evaluated": {k: v for k, v in ppcond.unevaluated.items() if k in used}}
         self.report = rep
         with open(os.path.join(self.work, 'unit.c'), 'w') as f:
             f.write(self.ctext)
